@@ -366,7 +366,7 @@ func (c *Conn) handleFrames(now time.Time, dgram *datagram, ptype packetType, sp
 			if !frameOK(c, ptype, __01) {
 				return
 			}
-			_, _, n = consumeStreamDataBlockedFrame(payload)
+			n = c.handleStreamDataBlockedFrame(now, payload)
 		case frameTypeNewConnectionID:
 			if !frameOK(c, ptype, __01) {
 				return
@@ -470,6 +470,18 @@ func (c *Conn) handleMaxDataFrame(now time.Time, payload []byte) int {
 		return -1
 	}
 	c.streams.outflow.setMaxData(maxData)
+	return n
+}
+
+func (c *Conn) handleStreamDataBlockedFrame(now time.Time, payload []byte) int {
+	id, _, n := consumeStreamDataBlockedFrame(payload)
+	if n < 0 {
+		return -1
+	}
+	// The frame carries no information we use, but like any frame naming a
+	// stream it is subject to the stream limit and stream state checks,
+	// and it may implicitly open the stream (RFC 9000, section 3.2).
+	c.streamForFrame(now, id, recvStream)
 	return n
 }
 
